@@ -1,9 +1,72 @@
 import UvModel.DriverUtil
-/-! line-protocol driver modes for C12 (stub: no modes yet) -/
+import UvModel.ProcFd
+/-! line-protocol driver for C12; other side: harness/c12_childinit.c -/
 namespace Drivers.C12
-open UvModel.DriverUtil
+open UvModel.DriverUtil UvModel.ProcFd
 
-/-- (mode name, action).  `uvdriver <mode>` runs the action (normally `runLines init step`). -/
-def modes : List (String × IO Unit) := []
+def fileName : File → String
+  | .desc id => s!"f{id}"
+  | .devNull false => "nullr"
+  | .devNull true => "nullw"
+
+def dumpTab (t : Tab) : String :=
+  String.join ((List.range t.bound).filterMap fun fd =>
+    (t.get fd).map fun e => s!" {fd}:{fileName e.file}:{if e.cloexec then "c" else "-"}")
+
+/-- `T 3 4n 7` : fd 3 and 7 open close-on-exec, fd 4 open inheritable; fd k refers to file k -/
+def parseInit (ws : List String) : Tab :=
+  ws.foldl (fun t w =>
+    let cx := !w.endsWith "n"
+    let fd := nat! (if cx then w else (w.dropEnd 1).toString)
+    t.set fd (some ⟨.desc fd, cx⟩)) Tab.empty
+
+/-- mode `childinit`: `ci <errfd> <cnt> <src>*cnt T <fd>[n]*` -/
+def ciStep (_ : Unit) : List String → Unit × List String
+  | "ci" :: e :: n :: rest =>
+    let cnt := nat! n
+    let srcs := (rest.take cnt).map (fun s => int! s)
+    match rest.drop cnt with
+    | "T" :: fds =>
+      if srcs.length ≠ cnt then ((), ["bad-op"]) else
+      let t := parseInit fds
+      match childInit t srcs (nat! e) with
+      | .ok t' e' => ((), [s!"ok {e'}", "pre" ++ dumpTab t', "post" ++ dumpTab (execClose t')])
+      | .fail t' e' => ((), [s!"fail {e'}", "pre" ++ dumpTab t'])
+    | _ => ((), ["bad-op"])
+  | [] => ((), [])
+  | _ => ((), ["bad-op"])
+
+structure WS where
+  n : Nat := 0
+  tracked : List Nat := []
+
+def dumpTracked (l : List Nat) : String := "tracked" ++ String.join (l.map fun i => s!" {i}")
+
+def parseRes : String → Option WaitRes
+  | "-" => some .running
+  | "E" => some .echild
+  | s => s.toNat?.map .reaped
+
+/-- mode `wait`: `spawn` | `round <res per tracked child>` | `close id` | `dec w` | `reset` -/
+def waitStep (s : WS) : List String → WS × List String
+  | ["reset"] => ({}, [dumpTracked []])
+  | ["spawn"] => let s' : WS := { n := s.n + 1, tracked := s.tracked ++ [s.n] }; (s', [dumpTracked s'.tracked])
+  | ["close", id] =>
+    let s' : WS := { s with tracked := s.tracked.filter (· ≠ nat! id) }; (s', [dumpTracked s'.tracked])
+  | "round" :: rs =>
+    if rs.length ≠ s.tracked.length then (s, ["bad-op"]) else
+    match rs.mapM parseRes with
+    | none => (s, ["bad-op"])
+    | some rl =>
+      let tbl := s.tracked.zip rl
+      let res : Nat → WaitRes := fun c => ((tbl.find? (·.1 == c)).map (·.2)).getD .echild
+      let (tr, evs) := waitChildren res s.tracked
+      ({ s with tracked := tr }, evs.map (fun e => s!"cb {e.id} {e.exitStatus} {e.termSignal}") ++ [dumpTracked tr])
+  | ["dec", w] => let d := decode (nat! w); (s, [s!"dec {d.1} {d.2}"])
+  | [] => (s, [])
+  | _ => (s, ["bad-op"])
+
+def modes : List (String × IO Unit) :=
+  [("childinit", runLines () ciStep), ("wait", runLines ({} : WS) waitStep)]
 
 end Drivers.C12
